@@ -570,6 +570,16 @@ TWINS = {
          ("class P(Schema):\n    v: int\n", ["[(type(x).__name__, x.v) for x in g(2)]", "list(g('x'))"])],
         "class P(Schema):\n    v: int\n"
         "@utype.parse\ndef g(n: int) -> Iterator[P]:\n    for i in range(n):\n        yield dict(v=str(i))\n"),
+    "async-generator-whole-annotation-ref": (
+        [("@utype.parse\nasync def ag(n: int) -> 'AsyncGenerator[P, Tg]':\n    got = yield dict(v=str(n))\n    yield dict(v=len(got))\n"
+          "@utype.parse\nasync def ai(n: int) -> typing.AsyncIterator['P']:\n    yield dict(v=str(n))\n"
+          "@utype.parse\nasync def co(n: int) -> 'P':\n    return dict(v=str(n))\n", []),
+         ("class P(Schema):\n    v: int\nclass Tg(str):\n    pass\n",
+          ["adrain(ag(1), ['ab'])", "adrain(ai('2'), [])", "adrain(ag('x'), [])", "arun(co(3))", "adrain(ag(2), [5])"])],
+        "class P(Schema):\n    v: int\nclass Tg(str):\n    pass\n"
+        "@utype.parse\nasync def ag(n: int) -> AsyncGenerator[P, Tg]:\n    got = yield dict(v=str(n))\n    yield dict(v=len(got))\n"
+        "@utype.parse\nasync def ai(n: int) -> typing.AsyncIterator[P]:\n    yield dict(v=str(n))\n"
+        "@utype.parse\nasync def co(n: int) -> P:\n    return dict(v=str(n))\n"),
     "subclass-adds-ref-to-pending-base": (
         [("class Base(Schema):\n    a: Optional['X'] = None\n"
           "class Sub(Base):\n    b: List['Y'] = Field(default_factory=list)\n", []),
@@ -605,6 +615,35 @@ def _probe(mod, expr):
     return ("other", f"{type(r).__name__ if st == 'exc' else st}: {short(r, 100)}")
 
 
+def arun(aw):
+    """run an awaitable that never really suspends (no event loop, no time)"""
+    import inspect
+    if not inspect.isawaitable(aw):
+        return aw
+    try:
+        aw.send(None)
+    except StopIteration as e:
+        return e.value
+    raise RuntimeError("harness: awaitable suspended")
+
+
+def adrain(agen, sends):
+    """drive an async generator: first item, then one asend per element of `sends`, then to exhaustion"""
+    import inspect
+    if inspect.iscoroutine(agen):
+        agen = arun(agen)
+    out = []
+    try:
+        out.append(arun(agen.__anext__()))
+        for x in sends:
+            out.append(arun(agen.asend(x)))
+        while True:
+            out.append(arun(agen.__anext__()))
+    except StopAsyncIteration:
+        pass
+    return [(type(x).__name__, getattr(x, "v", x)) for x in out]
+
+
 def _fresh_module(tag):
     import typing
     for f in typing._cleanups:
@@ -613,6 +652,7 @@ def _fresh_module(tag):
     m = types.ModuleType(f"utmc_c17_{tag}_{_SEQ[0]}")
     sys.modules[m.__name__] = m
     exec("from utmc.ns import *", m.__dict__)
+    m.__dict__.update(arun=arun, adrain=adrain)
     return m
 
 
